@@ -87,7 +87,13 @@ impl ResponseOutputFormat {
                 };
 
                 if !errors.is_empty() {
-                    response["error"] = json![{"csv": json![errors]}];
+                    let csv_errors = json![{"csv": json![errors]}];
+                    // never replace an error already recorded for this query (e.g. by the search)
+                    if response.get("error").is_some() {
+                        response["csv_error"] = csv_errors;
+                    } else {
+                        response["error"] = csv_errors;
+                    }
                 }
                 Ok(row)
             }
